@@ -2,12 +2,16 @@ package props
 
 import (
 	"fmt"
+	"os"
+	"path/filepath"
+	"strings"
 	gotime "time"
 
 	"github.com/jotaen/klog/klog"
 	"github.com/jotaen/klog/klog/app"
 	"github.com/jotaen/klog/klog/app/cli"
 	"github.com/jotaen/klog/klog/app/cli/util"
+	klogmain "github.com/jotaen/klog/klog/app/main"
 	"github.com/jotaen/klog/klog/service"
 	"verifharness/model"
 )
@@ -125,4 +129,73 @@ func (h *harness) RunCmd(c model.Cmd, file string) (result, error) {
 		return h.Run(cr), nil
 	}
 	return result{}, invocationError{"unknown command kind " + c.Kind}
+}
+
+// Argv is the command line (without the program name) that expresses c on file.
+func Argv(c model.Cmd, file string) []string {
+	a := []string{c.Kind}
+	switch c.DateSel {
+	case "explicit":
+		a = append(a, "--date", c.Date.Lit())
+	case "today", "yesterday", "tomorrow":
+		a = append(a, "--"+c.DateSel)
+	}
+	if c.Time != nil {
+		a = append(a, "--time="+c.Time.Lit) // `=`: a shifted time starts with `<`, never with `-`, but stay safe
+	}
+	if c.Round != 0 {
+		a = append(a, "--round", fmt.Sprintf("%dm", c.Round))
+	}
+	if c.Summary != nil {
+		a = append(a, "--summary="+strings.Join(model.Strs(c.Summary), "\n"))
+	}
+	if c.Resume {
+		a = append(a, "--resume")
+	}
+	if c.ResumeNth != 0 {
+		a = append(a, fmt.Sprintf("--resume-nth=%d", c.ResumeNth))
+	}
+	if c.Extend {
+		a = append(a, "--extend")
+	}
+	if c.NoTags {
+		a = append(a, "--no-tags")
+	}
+	if c.Should != nil {
+		a = append(a, "--should="+c.Should.Lit+"!")
+	}
+	a = append(a, "--no-style")
+	if c.Kind == "track" {
+		a = append(a, "--", strings.Join(c.EntryLines(), "\n"), file)
+	} else {
+		a = append(a, file)
+	}
+	return a
+}
+
+// RunMain runs klog's real entry point (flag parsing, context construction, error to exit code
+// mapping) with stdout captured through a scratch file. The clock is the real one. `pause` ends
+// after the given number of ticks.
+func (h *harness) RunMain(args []string, pauseTicks int) (code int, rerr error, stdout string) {
+	if pauseTicks >= 0 {
+		util.VerifRepeat.Interval = gotime.Microsecond
+		util.VerifRepeat.OnTick = func(done int64) bool { return int(done) >= pauseTicks }
+		defer func() { util.VerifRepeat.OnTick = nil }()
+	}
+	capture := h.Path("stdout.txt")
+	cf, err := os.Create(capture)
+	if err != nil {
+		panic("harness: " + err.Error())
+	}
+	saved := os.Stdout
+	os.Stdout = cf
+	defer func() {
+		os.Stdout = saved
+		cf.Close()
+		ob, _ := os.ReadFile(capture)
+		os.Remove(capture)
+		stdout = string(ob)
+	}()
+	code, rerr = klogmain.Run(app.NewFileOrPanic(filepath.Join(h.dir, "cfg")), app.Meta{}, h.cfg, args)
+	return
 }
